@@ -1,7 +1,11 @@
 """C07 -- routing: is_supported_file == get_extractor succeeds; extension decides.
 
 Functions under contract: router._file_type_from_extension, _get_extractor,
-is_supported_file, get_extractor; mime_types.is_supported_mime_type.
+is_supported_file, get_extractor; mime_types.is_supported_mime_type; read_file;
+archive_extractor._is_supported_file_cached, _get_file_extractor_cached,
+_should_skip_file, _process_archive_entry (+ dataflow on the three member loops);
+data_types.EmailContent.iterate_supported_attachments (EXTRA `attachments_site`,
+invariant shared with contracts/C16.py).
 `os.path.splitext` and `mimetypes.guess_type` are uninterpreted (E, M): the
 proofs hold for *every* MIME database and every splitext satisfying axioms
 A1-A3 (A5 is used only by the alias lemma).  `str.lower` is uninterpreted: both
@@ -410,7 +414,10 @@ TRUSTED = ["os.path.splitext axioms A1-A3 (+A5 instances in alias/extension lemm
            "importlib.import_module succeeds for registry modules"]
 ASSUMED_MODELS = ["os.path.splitext (uninterpreted, axioms A1-A3)", "mimetypes.guess_type (uninterpreted: any MIME database)",
                   "str.lower (uninterpreted)", "importlib.import_module + getattr (function identity = (module, name))"]
-ASSUMPTIONS = ["PY-STR: str as sequence of code points (z3 String)", "PY-EXC", "logger calls dropped (PY-LOG)"]
+ASSUMPTIONS = ["PY-STR: str as sequence of code points (z3 String)", "PY-EXC", "logger calls dropped (PY-LOG)",
+               "PY-MEMO: functools.lru_cache in front of a deterministic function is transparent (decorators are not executed); "
+               "the MIME database does not change between a member's selection and its dispatch (cache soundness: C15)",
+               "extractor identity = (module, function name) resolved by importlib at call time"]
 
 
 # ------------------------------------------------------------ policy / tables --
@@ -524,7 +531,7 @@ def table_policies(repo):
     out = []
     bad_mut, bad_ref = [], []
     homes = {ROUTER: set(ROUTING_TABLES), MIME: {"MIME_TYPE_MAPPING"}}
-    allowed_mime_readers = {(MIME, "is_supported_mime_type"), (ROUTER, "is_supported_file"), (ROUTER, "get_extractor"),
+    allowed_mime_readers = {(MIME, "is_supported_mime_type"),
                             ("sharepoint2text/parsing/extractors/data_types.py", "EmailContent.iterate_supported_attachments")}
     n_files = 0
     for rel in loader.all_package_files(repo):
@@ -580,7 +587,8 @@ def table_policies(repo):
             if t and isinstance(getattr(n, "ctx", None), _ast.Load):
                 if t in ROUTING_TABLES and rel != ROUTER:
                     bad_ref.append(f"{rel}:{n.lineno} reads {t}")
-                if t == "MIME_TYPE_MAPPING" and (rel, owner.get(id(n))) not in allowed_mime_readers and not (rel == MIME and owner.get(id(n)) is None):
+                if t == "MIME_TYPE_MAPPING" and rel != ROUTER and (rel, owner.get(id(n))) not in allowed_mime_readers \
+                        and not (rel == MIME and owner.get(id(n)) is None):
                     bad_ref.append(f"{rel}:{n.lineno} reads MIME_TYPE_MAPPING in {owner.get(id(n))}")
             if isinstance(n, _ast.ImportFrom) and n.module and rel != ROUTER:
                 for a in n.names:
